@@ -34,7 +34,7 @@ C05_EvalIsSem ==
         \A n \in 1..Len(TT) : Eval("impl", UU, TT, doc.rule, n, EmptyEnv).ok = Sem(UU, TT, PV, doc.rule, n)
 
 C04_NoTrace ==
-    (Judged /\ ~HasNthOfWithVars(UU, doc.rule)) =>
+    Judged =>
         \A n \in 1..Len(TT) : LET i == Eval("impl", UU, TT, doc.rule, n, EmptyEnv)  c == Eval("clean", UU, TT, doc.rule, n, EmptyEnv) IN
                                \* what a caller can observe: the verdict, and the environment of a success
                                i.ok = c.ok /\ (i.ok => i.env = c.env)
